@@ -64,6 +64,7 @@ func main() {
 		if err != nil {
 			fmt.Println("error:", err)
 		}
+		fmt.Println("renamed:", r.Renamed)
 		fmt.Println("unknown:", strings.Join(r.Unknown, "\n  "))
 		fmt.Println("inlined:\n  " + strings.Join(r.Inlined, "\n  "))
 		fmt.Println("removed:", strings.Join(r.Removed, ", "))
